@@ -6,10 +6,10 @@ From Coq Require Import Reals List.
 From Coquelicot Require Import Coquelicot.
 From OV.base Require Import Num Piecewise.
 From OV.gen Require Import Gen_ConstrainedObjective Gen_AlSolver Gen_BoundConstrainedObjective.
-From OV.model Require Import M_C04_AL.
+From OV.model Require Import M_C04_AL M_C04_BC.
 From OV.model Require Import M_C19_CFG.
 From OV.gen Require Import CFG_drivers.
-From OV.proofs Require Import L_C04 L_C04_CFG L_C04_Upd L_C04_Cvx L_C04_Newton.
+From OV.proofs Require Import L_C04 L_C04_CFG L_C04_Upd L_C04_Cvx L_C04_Newton L_C04_BC.
 Import ListNotations.
 Local Open Scope list_scope.
 Local Open Scope R_scope.
@@ -237,6 +237,58 @@ Theorem C04_bound_constrained_return : forall (cfg : @settings R) (orc : @oracle
        /\ @norm2 R NumR (gradAL orc it Sub xBar lam' kappa') < tol cfg
        /\ List.Forall (kkt_row (tol cfg)) (zip3 triple (constraint orc it Sub xBar) lam' kappa0).
 Proof. exact bc_solve_return. Qed.
+(* ---- the COMPLETE front end: model bc_front of model/M_C04_BC.v (all of bound_constrained_solve: reset_kappa, scaling, the flags
+   useWarmStart / updatePrecond / sub_problem_callback, the warm-start increment as an ARBITRARY oracle `warm`, the nested
+   augmented_lagrange_solve, invScaling on the way out), with its own event trace; tied to the implementation by the executed trace
+   correspondence `bc trace` (real bound_constrained_solve on a real BoundConstrainedObjective, compared event by event).
+   Every normal return, for all flags and oracles: the conclusions of C04_bound_constrained_return, and the trace is
+   reset_kappa :: a ++ [p := p] ++ b ++ [nested p := p] ++ (events of the nested solve), with no other store to p, no warm start after
+   the store, no event of the nested solve before it; the nested solve is al_solve started from kappa = constraintKappa at
+   bc_start = scaling*x0 (+ warm increment), and every multiplier it shows is >= 0 *)
+Theorem C04_bound_front_end_return : forall (cfg : @settings R) (orc : @oracles R) (warm : list R -> list R) fl
+    scaling isc sc_c kappa0 x0 lam x mult lam' kappa' ev,
+  bc_front cfg orc warm fl scaling isc sc_c kappa0 x0 lam = (BCReturned x mult lam' kappa', ev) ->
+  1 <= penalty_scaling cfg -> List.Forall (fun a => 0 < a) kappa0 -> List.Forall (fun a => 0 < a) sc_c ->
+  nonneg lam' /\ nonneg mult /\ mult = @vmul R NumR lam' sc_c
+  /\ List.Forall2 (fun k0 k => 0 < k0 <= k) kappa0 kappa'
+  /\ (exists xBar it, x = @vmul R NumR isc xBar /\ (it < max_al_iters cfg)%nat
+       /\ @norm2 R NumR (gradAL orc it Sub xBar lam' kappa') < tol cfg
+       /\ List.Forall (kkt_row (tol cfg)) (zip3 triple (constraint orc it Sub xBar) lam' kappa0))
+  /\ exists a b eva xBar,
+       ev = BCReset kappa0 :: (a ++ BCAssignP (use_warm_start fl) :: b) ++ [BCNestedAssignP] ++ map (@BCAl R) eva
+       /\ existsb (@is_bc_assign R) a = false /\ existsb (@is_bc_assign R) b = false
+       /\ existsb (@is_bc_warm R) b = false /\ existsb (@is_bc_al R) (a ++ b) = false
+       /\ al_solve cfg orc kappa0 (bc_start warm fl scaling x0) lam kappa0 = (Returned xBar lam' kappa', eva)
+       /\ List.Forall (ev_lam_ok) eva.
+Proof. exact bc_front_return. Qed.
+(* the only other exit is the raise of the nested solve *)
+Theorem C04_bound_front_end_exits : forall (cfg : @settings R) (orc : @oracles R) (warm : list R -> list R) fl
+    scaling isc sc_c kappa0 x0 lam o ev,
+  bc_front cfg orc warm fl scaling isc sc_c kappa0 x0 lam = (o, ev) ->
+  match o with
+  | BCReturned x mult lam' kappa' => exists xBar eva,
+      al_solve cfg orc kappa0 (bc_start warm fl scaling x0) lam kappa0 = (Returned xBar lam' kappa', eva)
+      /\ x = @vmul R NumR isc xBar /\ mult = @vmul R NumR lam' sc_c
+  | BCNotConverged => exists xBar lam' kappa' eva,
+      al_solve cfg orc kappa0 (bc_start warm fl scaling x0) lam kappa0 = (NotConverged xBar lam' kappa', eva)
+  end.
+Proof. exact bc_front_exits. Qed.
+(* refinement: bc_front computes the outcome and the outer-loop trace of the older model bc_solve (dxBar := the warm oracle's answer
+   under useWarmStart, the zero vector otherwise), so C04_bound_constrained_return is a statement about the executed model too *)
+Theorem C04_bound_front_end_refines_bc_solve : forall (cfg : @settings R) (orc : @oracles R) (warm : list R -> list R) fl
+    scaling isc sc_c kappa0 x0 lam,
+  let dx := bc_dx warm fl (@vmul R NumR scaling x0) in
+  fst (bc_front cfg orc warm fl scaling isc sc_c kappa0 x0 lam) = fst (bc_solve cfg orc scaling isc sc_c kappa0 x0 dx lam)
+  /\ snd (bc_front cfg orc warm fl scaling isc sc_c kappa0 x0 lam)
+     = BCReset kappa0 :: bc_prologue warm fl scaling x0 ++ [BCNestedAssignP]
+         ++ map (@BCAl R) (snd (bc_solve cfg orc scaling isc sc_c kappa0 x0 dx lam)).
+Proof. exact bc_front_refines_bc_solve. Qed.
+(* non-vacuity: one bound (kappa0 = 5), all three flags on, sub-problem solver answering [1] (bound inactive), zero AL gradient: the first
+   outer iteration passes the termination test and the front end returns invScaling * xBar with zero multipliers *)
+Example C04_bound_front_end_nonvacuous : exists ev,
+  bc_front bcx_cfg bcx_orc (fun _ => [1]) {| use_warm_start := true; update_precond := true; has_sub_callback := true |}
+           [2] [1 / 2] [2] [5] [0] [0] = (BCReturned [1 / 2] [0] [0] [5], ev).
+Proof. exact bc_front_nonvacuous. Qed.
 Example C04_generated_updates_nonvacuous :
   @sub_lam_update R NumR 1 2 3 = 0 /\ @sub_lam_update R NumR 1 2 (-3) = 7 /\ @sub_kappa_update R NumR 2 true 4 = 8
   /\ @sub_poor_progress R NumR 1 1 (3 / 4) (1 / 100) 4 = true /\ @sub_poor_progress R NumR (1 / 2) 1 (3 / 4) (1 / 100) 4 = false.
@@ -272,10 +324,18 @@ Proof. exact al_paths_nonvacuous. Qed.
    NOT MODELLED (oracles / tested only): the sub-problem solver, linear_update (GMRES: newton_step is an oracle returning (s, exitcode) in
    both the AL model and the globalized_newton_step model; no contract on the GMRES answer is assumed or proved), the warm-start
    increment, jax autodiff of the AL function; the `np.any(poorProgress) and solverSuccess` guard and the evaluation order of
-   solve_sub_step are hand-modelled (trace correspondence), only its three update statements are generated code.  bc_solve
-   (bound-constrained front end) is a hand model tied by checks on real runs and the control-flow IR, not by an executed trace
-   correspondence.  globalized_newton_step is a hand model tied by an executed correspondence (result, number of tests, slope and
-   residual evaluations) on the real function with newton_step scripted; it is imported but never called by AlSolver. *)
+   solve_sub_step are hand-modelled (trace correspondence), only its three update statements are generated code.  The
+   bound-constrained front end bc_front is a hand model tied by an EXECUTED trace correspondence (second pass: stream `bc trace`, all
+   flag combinations, real and scripted warm start) and by the control-flow IR; WarmStart.warm_start_increment is an oracle in it
+   (its CG contract is C19's subject).  globalized_newton_step is a hand model tied by an executed correspondence (result, number of tests, slope and
+   residual evaluations) on the real function with newton_step scripted; it is imported but never called by AlSolver.
+   ODDITY (first pass), decided: after its LAST cutback (linesearchCount = maxLinesearchIters - 1) globalized_newton_step recomputes the
+   residual energy of the shortened step but the loop ends without testing it, and 0.0 (no step) is returned even if that step would
+   have passed the sufficient-decrease test.  The model reproduces this (gn_loop with fuel 0 returns None after rEN' was computed) and
+   C04_globalized_newton_descent is a statement about returned steps only, so it is unaffected.  It does NOT touch property C04:
+   no KKT clause mentions NewtonSolver, AlSolver imports globalized_newton_step but never calls it (checked on the AST by the harness:
+   `globalized_newton_step_called_by_AlSolver` = 0 in the evidence), the effect is one wasted residual evaluation and a possibly
+   pessimistic "no step" answer, never a wrong step.  Outside the property; no finding filed. *)
 
 (* bound-constrained front end (BoundConstrainedObjective): per constrained dof, with d = scaling > 0, scaled gradient g/d, scaled
    bound d*x >= 0 and multiplier lam, KKT in the scaled variables <=> KKT in the original variables with the multiplier d*lam
@@ -332,5 +392,6 @@ Print Assumptions C04_return_is_KKT.
 Print Assumptions C04_convex_KKT_is_min.
 Print Assumptions C04_approx_KKT_is_near_min.
 Print Assumptions C04_bound_constrained_return.
+Print Assumptions C04_bound_front_end_return.
 Print Assumptions C04_convex_solve_returns_tol_optimal.
 Print Assumptions C04_globalized_newton_descent.
